@@ -198,14 +198,24 @@ EmitNsec ==
       [in  |-> [kind |-> "nsec", apex |-> Apex, recs |-> ZoneJ, soa |-> SoaOf, assume |-> a],
        exp |-> [chain |-> ChainJ(NsecChainV(v, Apex, a)),
                 ttl |-> Min(SoaOf.ttl, SoaOf.min), class |-> 1]]))
+\* The configuration is built through the public setter methods of
+\* GenerateNsec3Config (defaults: DNSKEY assumed, no opt-out, exclusion on once
+\* opt-out is on); the result must not depend on the order of the calls.
+Setters(c, flagonly) ==
+  (IF c.assume THEN {} ELSE {"no_dnskey"})
+  \cup (IF c.exclude \/ flagonly THEN {"opt_out"} ELSE {})
+  \cup (IF flagonly THEN {"no_exclude"} ELSE {})
+Perms(S) == {p \in [1..Cardinality(S) -> S] : \A i, j \in 1..Cardinality(S) : i # j => p[i] # p[j]}
 EmitNsec3 ==
   (step = "nsec3" /\ rk = 1) =>
     LET v == View(zone, Apex) IN
     \A c \in Configs : \A flagonly \in {FALSE} \cup (IF c.exclude THEN {} ELSE {TRUE}) :
+     \A order \in Perms(Setters(c, flagonly)) :
       LET owners == N3OwnersV(v, c.exclude)
           names == SortNames(N3NamesV(v, Apex, c.exclude))
       IN PrintT("CASE " \o ToJson(
         [in  |-> [kind |-> "nsec3", apex |-> Apex, recs |-> ZoneJ, soa |-> SoaOf, assume |-> c.assume,
+                  setters |-> order,
                   optout |-> IF c.exclude THEN "exclude" ELSE IF flagonly THEN "flagonly" ELSE "none",
                   salt |-> SaltOf, iters |-> ItersOf,
                   names |-> [i \in 1..Len(names) |->
@@ -216,6 +226,45 @@ EmitNsec3 ==
                   linked |-> TRUE,
                   flags |-> IF c.exclude \/ flagonly THEN 1 ELSE 0,
                   ttl |-> Min(SoaOf.ttl, SoaOf.min), paramttl |-> SoaOf.ttl]]))
+\* Apex names at the length limit: the hashed owner name is a 32-character
+\* label (33 octets) in front of the apex, so an apex of 222 wire octets is the
+\* longest that can carry an NSEC3 chain (255-octet owner names)
+ApexOfLen(w) == <<LN(w - 194), L63(1), L63(2), L63(3)>>         \* 3 * 64 + (w - 193) + 1 = w
+LongApexes == {ApexOfLen(220), ApexOfLen(221), ApexOfLen(222)}
+LongZone(ap) == Recs(ap, {T_SOA, T_NS}) \cup Recs(<<la>> \o ap, {T_A}) \cup Recs(<<lb, lb>> \o ap, {T_NS})
+SetToSeq2(S) == CHOOSE p \in Perms(S) : TRUE
+AtStart == kind = "bitmap" /\ adds = <<>>
+LongApexLaws == AtStart =>
+  \A ap \in LongApexes :
+     LET z == LongZone(ap)  s == SortRecs(z)  v == View(z, ap)
+         S == Closure({Low(r.n) : r \in z})
+         rf == TLCEval([n \in S |-> 1 + Cardinality({m \in S : CanonNameCmp(m, n) < 0})])
+     IN /\ WireLenAbs(ap) \in {220, 221, 222}
+        /\ LowChain(NsecPass(s, ap, TRUE).out) = NsecChainV(v, ap, TRUE)
+        /\ \A c \in Configs :
+              LowChain(Nsec3Pass(s, ap, c.exclude, c.assume, rf).out) = Nsec3ChainV(v, ap, c.exclude, c.assume, rf)
+EmitLongApex == AtStart =>
+  \A ap \in LongApexes :
+     LET z == LongZone(ap)  s == SortRecs(z)  v == View(z, ap)
+         zj == [i \in 1..Len(s) |-> s[Len(s) + 1 - i]]
+         soa == [ttl |-> 3600, min |-> 300]
+     IN /\ PrintT("CASE " \o ToJson(
+              [in  |-> [kind |-> "nsec", apex |-> ap, recs |-> zj, soa |-> soa, assume |-> TRUE],
+               exp |-> [chain |-> ChainJ(NsecChainV(v, ap, TRUE)), ttl |-> 300, class |-> 1]]))
+        /\ \A c \in Configs :
+             LET owners == N3OwnersV(v, c.exclude)
+                 names == SortNames(N3NamesV(v, ap, c.exclude))
+             IN PrintT("CASE " \o ToJson(
+               [in  |-> [kind |-> "nsec3", apex |-> ap, recs |-> zj, soa |-> soa, assume |-> c.assume,
+                         setters |-> SetToSeq2(Setters(c, FALSE)),
+                         optout |-> IF c.exclude THEN "exclude" ELSE "none", salt |-> <<171>>, iters |-> 1,
+                         names |-> [i \in 1..Len(names) |->
+                                      [n |-> names[i], term |-> Nsec3Term(names[i], <<171>>, 1)]]],
+                exp |-> [entries |-> [i \in 1..Len(names) |->
+                                        [n |-> names[i],
+                                         types |-> SetToSeq(N3TypesV(v, ap, owners, c.assume, names[i]))]],
+                         linked |-> TRUE, flags |-> IF c.exclude THEN 1 ELSE 0,
+                         ttl |-> 300, paramttl |-> 3600]]))
 EmitBitmap ==
   kind = "bitmap" => PrintT("CASE " \o ToJson(
       [in  |-> [kind |-> "bitmap", adds |-> adds],
